@@ -283,6 +283,7 @@ type knownSet map[string]bool
 var allFindingIDs = []string{
 	fNegID, fAtoi, fQuoteEOF, fInt32, fBadQuote, fGetPathStar, fForEachNil, fForEachEmpty,
 	fTypedefPath, fLenientRoot, fLenientList, fEmptyRoundTrip, fStrKeyJSON, fStringTypedef, fFieldNonStruct, fStringNested,
+	fStrKeyUTF8,
 }
 
 func known() knownSet {
